@@ -250,8 +250,9 @@ def opTrain (st : St) (n : Nat) (dimsOK : Bool) (post : List String) : St × Str
     let o := match st.kind with
       | .pq => (PQ.train st.pq n dimsOK []).2
       | .ivfpq => (IVFPQ.train st.iv n dimsOK [] []).2
-    if outName o == e && o != .ok && o != .panic then
-      (st, s!"ok err small={if n < ksub then 1 else 0}") else
+    -- a refused Train: the model refuses too; which error is reported is free (Proto.sameOutcome)
+    if o != .ok && o != .panic then
+      (st, s!"ok err small={if n < ksub then 1 else 0} {classFlag e}") else
       (st, s!"DIFF train model={outName o} impl=err:{e}")
   | ["panic"] =>
     let o := match st.kind with
@@ -269,9 +270,7 @@ def opAdd (st : St) (id : Id) (v : List UInt32) (post : List String) : St × Str
   match post, o with
   | ["panic"], .panic => (st2, "SPECFAIL panic add (model agrees)")
   | ["panic"], _ => (st2, s!"SPECFAIL panic add model={outName o}")
-  | ["err", e], .err me =>
-    if e == Comet.Driver.FlatStream.errName (some me) then (st2, "ok err") else
-      (st2, s!"DIFF add model={outName o} impl=err:{e}")
+  | ["err", e], .err _ => (st2, s!"ok err {classFlag e}")   -- both refuse; which error: free
   | ["ok", li, code], .ok =>
     match li.toNat?, parseCode code, st2.entryOf id, st.m.pre v with
     | some li, some code, some e, some v' =>
@@ -298,7 +297,8 @@ def opSimple (st : St) (op : Flat.Op (List UInt32)) (name : String) (post : List
   let st2 := st1.stepSpec op
   let impl := match post with | ["err", e] => e | [x] => x | _ => "?"
   if impl == "panic" then (st2, s!"SPECFAIL panic {name}") else
-  if impl == outName o then (st2, if o == .ok then "ok" else "ok err") else
+  if impl != "?" && o != .panic && sameOutcome impl (outName o) then
+    (st2, if o == .ok then "ok" else s!"ok err {classFlag impl}") else
     (st2, s!"DIFF {name} model={outName o} impl={post}")
 
 def parseState (toks : List String) : Option (List (List (Id × List Nat)) × List Id) :=
@@ -386,7 +386,8 @@ def opSearch (st : St) (pre post : List String) : St × String :=
     match post, model with
     | ["panic"], _ => (st, "SPECFAIL panic search")
     | ["err", e], .error me =>
-      if e == failName me then (st, "ok err") else (st, s!"DIFF search-err model={failName me} impl={e}")
+      -- both fail (untrained, wrong dimension, zero vector, …): which error is reported is free
+      if me != .panic then (st, s!"ok err {classFlag e}") else (st, s!"DIFF search-err model={failName me} impl={e}")
     | ["err", e], .ok _ => (st, s!"DIFF search model=ok impl=err:{e}")
     | "ok" :: _, .error me => (st, s!"DIFF search model=err:{failName me} impl=ok")
     | "ok" :: hits, .ok mres =>
